@@ -32,7 +32,7 @@ package verifier
 //@   safety all
 
 //@ func (v *Verifier) Verify
-//@   props C14 C07 C20
+//@   props C14 C07 C20 C12
 //@   requires v != nil && !v.mu.held && v.cscaCertPool != nil
 //@   ensures "lock-released": !v.mu.held
 //@   ensures "document-or-error": (result0 != nil) == (result1 == nil)
